@@ -137,7 +137,7 @@ package clickhouse_transpiler
 
 // The span attribute index is dated by UTC day: its date bounds cover the UTC days
 // of the whole window in any process time zone.
-//@ func (*InitIndexPlanner).Process [C13]
+//@ func (*InitIndexPlanner).Process [C11,C13]
 //@   flag checks=-index,-assert
 //@   at sql_select.Ge lower-date-covers-window-start: isDateCol(arg0) ==> fmtDay <= fdiv(ctx.From.UnixNano(), 86400000000000)
 //@   at sql_select.Le upper-date-covers-window-end: isDateCol(arg0) ==> fmtDay >= fdiv(ctx.To.UnixNano(), 86400000000000)
